@@ -849,6 +849,58 @@ def r07_20(run, model):
     run.floor("unifications in mono_expr", n, 3)
 
 
+def r07_21(run, model):
+    run.rule("R07.21", "a function is typed with its own type parameters in scope: every call that builds the typed form of a hir function "
+                       "(a callee taking the function and a list of type parameter names) derives that list from the generics of the very "
+                       "function it passes - a method of an impl block adds them to the block's, it does not replace them")
+    TB_ = "crates/compiler/src/typer/tast_builder.rs"
+    builders = {}
+    for g in model.fns(TB_):
+        ps = [p for p in g.params() if not p["self"] and p["pat"]["k"] == "PIdent"]
+        fi = [i for i, p in enumerate(ps) if re.search(r"\bFn\b", p["ty"] or "")]
+        ti = [i for i, p in enumerate(ps) if re.fullmatch(r"&\[(\w+::)*TastIdent\]", (p["ty"] or "").replace(" ", ""))]
+        if fi and ti:
+            builders[g.name] = (fi[0], ti[0])
+    if not builders:
+        raise AnalysisIncomplete("tast_builder.rs: no builder taking (function, type parameter names)")
+    n = 0
+    for f in model.fns(TB_):
+        if f.body is None:
+            continue
+        for c in S.walk(f.body):
+            if c["k"] != "Call" or S.callee_name(c) not in builders or len(c["args"]) <= max(builders[S.callee_name(c)]):
+                continue
+            fi, ti = builders[S.callee_name(c)]
+            fid = sorted(S.idents(c["args"][fi]))
+            if len(fid) != 1:
+                raise AnalysisIncomplete(f"{f.name}: the function argument of {S.callee_name(c)} is not a plain name")
+            n += 1
+            # everything that flows into the list: initialisers of the locals it names and what is pushed/extended into them
+            flow = [S.norm_ws(run.facts.text(TB_, c["args"][ti]["sp"]))]
+            seen = set()
+            work = list(S.idents(c["args"][ti]))
+            while work:
+                x = work.pop()
+                if x in seen:
+                    continue
+                seen.add(x)
+                for l in S.find(f.body, "Local"):
+                    if l.get("init") is not None and x in S.pat_bindings(l["pat"]) and l["sp"][0] <= c["sp"][0]:
+                        flow.append(S.norm_ws(run.facts.text(TB_, l["init"]["sp"])))
+                        work.extend(S.idents(l["init"]))
+                for mc in S.walk(f.body):
+                    if mc["k"] == "MethodCall" and mc["method"] in ("extend", "push", "append", "extend_from_slice", "insert") and S.idents(mc["recv"]) == {x} and mc["sp"][0] <= c["sp"][0]:
+                        for a in mc["args"]:
+                            flow.append(S.norm_ws(run.facts.text(TB_, a["sp"])))
+                            work.extend(S.idents(a))
+            ok = any(re.search(r"\b" + re.escape(fid[0]) + r"\.generics\b", t) for t in flow)
+            run.ob("R07.21", f"{f.name}|{S.callee_name(c)} receives the generics of the function it builds", ok, site(TB_, c["sp"]),
+                   "type parameter list: " + " <- ".join(t[:40] for t in flow[:4]),
+                   witness="impl Box[T] { fn map[U](self: Box[T], f: (T) -> U) -> Box[U] }: U is not a type parameter of the typed method, "
+                           "mono never substitutes it and the Go output names the type `U`")
+    run.floor("calls that build a typed function", n, 2)
+
+
 def r07_15(run, model):
     run.rule("R07.15", "no generic application survives in what is emitted: besides function signatures and bodies, mono collapses the field "
                        "types of the definitions it keeps (non-generic structs and enums are emitted as they stand) - in `mono`, outside "
@@ -890,6 +942,7 @@ def run(run, model):
     run.try_rule(r07_18, model)
     run.try_rule(r07_19, model)
     run.try_rule(r07_20, model)
+    run.try_rule(r07_21, model)
     from rules import c19 as _c19
     run.rule("R07.14", "two instances of a generic enum never share a Go type name for a variant (shared with C19 R19.8: the clash count ranges over the specialised enums that are emitted)")
     run.try_rule(_c19.r19_8, model)
